@@ -1401,7 +1401,7 @@ func TestVerifC39(t *testing.T) {
 	}{
 		{"cache", defTimeout, r.N(1400, 30000), 4},
 		{"nocache", 0, r.N(600, 12000), 4},
-		{"race", 0, r.N(1500, 30000), 45},
+		{"race", 0, r.N(1500, 20000), 45},
 	}
 	const workers = 8
 	for _, ph := range phases {
